@@ -400,33 +400,33 @@ def check_caller(variant, caller, pts, ctx, table=None):
         ctx.violation("%s/matrix-of-unexpected-shape" % site, case, {"shape": list(M.shape), "track_size": size})
         return False
     Ml = M.tolist()
-    # (1) the direction the caller documents
+    if not site.startswith("findStops") or any(v != 0 for row in Ml for v in row):
+        ctx.oblige(obl)
+    # (1) the direction the caller documents must be the one it asks the dynamic programme for
     d = seam_direction(mode)
     if d != documented:
         ctx.violation("%s/%s/direction-not-forwarded-to-optimalPartition" % (site, DIRNAME[documented]), case,
                       {"documented": DIRNAME[documented], "passed_mode": repr(mode)})
-    # (2) the matrix (where the caller documents how it is built)
+        if d is None:
+            return False
+    # (2) the matrix (where the caller documents how it is built: all of these go through optimalSegmentation)
     if not site.startswith("findStops"):
         E = _expected_matrix(size, ref)
         bad = [(a, b) for a in range(n) for b in range(n) if a != b and abs(Ml[a][b] - E[a][b]) > 1e-9]
         bad += [(a, n) for a in range(size) if Ml[a][n] != 0 or Ml[n][a] != 0]
         if bad:
-            ctx.violation("%s/matrix-differs-from-cost-function" % site, case,
+            ctx.violation("optimalSegmentation/matrix-differs-from-cost-function", case,
                           {"first_bad_cell": list(bad[0]), "got": Ml, "expected": E})
             return False
     else:
         if any(Ml[a][n] != 0 or Ml[n][a] != 0 for a in range(size)):
             ctx.undef()         # the padding convention does not hold for this matrix: nothing to compare with
             return False
-    # (3) the answer of the delegated call is an optimum of the matrix it was given, for the documented direction
-    ok, nt = judge(ctx, "optimalPartition", case, answer, Ml, n, documented, oblige=False)
+    # (3) the answer of the delegated call is an optimum of the matrix it was given, for the direction it was asked
+    #     (a wrong direction is the caller's fault and was reported under (1); a wrong optimum is optimalPartition's)
+    ok, nt = judge(ctx, "optimalPartition", case, answer, Ml, n, d, oblige=False)
     if nt:
         ctx.oblige("caller_direction_matters")
-    if site.startswith("findStops"):
-        if any(v != 0 for row in Ml for v in row):
-            ctx.oblige(obl)
-    else:
-        ctx.oblige(obl)
     if not ok:
         return nt
     # (4) what the caller hands back is what the dynamic programme selected
@@ -464,7 +464,7 @@ def probe():
 # plan
 # ---------------------------------------------------------------------------
 MATRIX_CHUNK = {"quick": 4096, "thorough": 32768}
-TRACK_CHUNK = {"quick": 2048, "thorough": 4096}
+TRACK_CHUNK = {"quick": 512, "thorough": 2048}
 
 
 def plan(tier, variant):
